@@ -396,8 +396,19 @@ pub fn check_log(h: &Hist, info: &SchedInfo) -> Result<(bool, Vec<&'static str>)
         let taken: Vec<(usize, f32)> = ops.iter().enumerate().filter_map(|(k, o)| if let Op::Took(EventView::Progress(v)) = o { Some((k, *v)) } else { None }).collect();
         let done: Vec<usize> = ops.iter().enumerate().filter_map(|(k, o)| if let Op::ProgressDone { .. } = o { Some(k) } else { None }).collect();
         let complete = s.result_at.is_some();
+        let concurrent = ops.iter().any(|o| matches!(o, Op::Progress { batch, .. } if *batch > 1));
+        if concurrent {
+            classes.push("concurrent_progress_reports");
+        }
         if complete || taken.len() > sent.len() {
-            if taken.iter().map(|x| x.1).collect::<Vec<_>>() != sent.iter().map(|x| x.1).collect::<Vec<_>>() {
+            // sequential reports arrive in order; reports issued concurrently arrive in some order, each exactly once
+            let mut a: Vec<u32> = taken.iter().map(|x| x.1.to_bits()).collect();
+            let mut b: Vec<u32> = sent.iter().map(|x| x.1.to_bits()).collect();
+            if concurrent {
+                a.sort();
+                b.sort();
+            }
+            if a != b {
                 return Err(failure("progress-lost-or-reordered", format!("installer reported progress {:?}, the observer received {:?}", sent.iter().map(|x| x.1).collect::<Vec<_>>(), taken.iter().map(|x| x.1).collect::<Vec<_>>()), h, around));
             }
         }
@@ -447,7 +458,7 @@ fn case_machine(t: &mut Tape, ctx: &CaseCtx) -> CaseResult {
                 Op::Took(v) => Some(format!("took {}", format!("{v:?}").chars().take(60).collect::<String>())),
                 Op::Http { view: Some(v), .. } => Some(format!("request {:?}", v.kind)),
                 Op::Install { .. } => Some("perform_install".into()),
-                Op::Progress { i, value } => Some(format!("installer reports progress #{i} {value}")),
+                Op::Progress { i, value, batch } => Some(format!("installer reports progress #{i} {value} (batch of {batch})")),
                 Op::ProgressDone { i } => Some(format!("receive_progress #{i} completed")),
                 Op::Reboot { .. } => Some("perform_reboot".into()),
                 _ => None }).take(50).collect::<Vec<_>>()})
